@@ -87,6 +87,9 @@ C07Cases(z) ==
     UNION {Benign(cl, a, ReplyTo(FramingOf(cl), a, v)) : cl \in Clients, a \in ReqShapes("s"), v \in F17Variants}
     \cup UNION {Benign(cl, a, ReplyTo(FramingOf(cl), a, <<2, 2>>)) : cl \in Clients, a \in {x \in ReqShapes("m") : x.fc \in {1, 2, 3, 4, 23}}}
     \cup UNION {Benign(cl, a, ReplyTo(FramingOf(cl), a, <<100, 100>>)) : cl \in Clients, a \in {x \in ReqShapes("l") : x.fc \in (IF Thorough THEN {1, 3, 17, 23} ELSE {3, 17})}}
+    \* every residue of the coil quantity modulo 8 (the reply's byte count is a ceiling division)
+    \cup UNION {Benign(cl, Args(fc, 1, 5, q, <<>>, <<>>, 0, 300 + q), ReplyTo(FramingOf(cl), Args(fc, 1, 5, q, <<>>, <<>>, 0, 300 + q), <<1, 0>>)) :
+                 cl \in (IF Thorough THEN Clients ELSE {"tcp", "rtu"}), fc \in {1, 2}, q \in (IF Thorough THEN 2..33 ELSE 2..17)}
     \cup UNION {Benign(cl, a, ExcReplyTo(FramingOf(cl), a, code)) : cl \in Clients, a \in ReqShapes("s"), code \in {2}}
     \cup UNION {Benign(cl, a, ExcReplyTo(FramingOf(cl), a, code)) : cl \in Clients, a \in {x \in ReqShapes("l") : x.fc \in {3, 16}}, code \in {1, 4, 11}}
 
